@@ -45,6 +45,10 @@ def gen(chk, tier):
         items.append((key, rb(rng, 12), rb(rng, 0), rb(rng, 0), ts))
     for n in (1, 16, 129):
         items.append((key, rb(rng, n), rb(rng, 10), rb(rng, 30), 16))
+    # every stage (8/4/2/1 bytes) of the nonce- and aad-tail staging in the Open expansion of the shared macros, and
+    # the 4-way GHASH of a long nonce (measured with PC traces: these instructions were not reached otherwise)
+    for n, al in ((14, 14), (15, 2), (7, 15), (30, 9), (144, 64), (200, 130)):
+        items.append((key, rb(rng, n), rb(rng, al), rb(rng, rng.choice([5, 33])), 16))
     sealed = seal_all(chk, items)
 
     def opens(cls, key, ts, cases):
